@@ -273,6 +273,7 @@ struct Hist {
 		RunResult tmp;
 		if (!mergeworld_build(mp, tmp, w, dir)) { res.fail("INFRA", "mergeworld", tmp.detail); return; }
 		MergeCtx mc;
+		mc.mfunc = r.chance(1, 2) ? MF_UNION : 1 + (int)r.below(MF_N - 1);
 		if (r.chance(1, 3)) mc.fail_at = 1 + r.below(6);
 		mtbl_merger_options *mo = mtbl_merger_options_init();
 		int mode = (int)r.below(3);
@@ -304,6 +305,9 @@ struct Hist {
 		for (size_t i = 0; i < 1 + n / 3; i++) pool_keys.push_back(kg.key());
 		for (size_t i = 0; i < n; i++) s.adds.push_back({ pool_keys[r.below(pool_keys.size())], sorter_token(i) });
 		s.max_mem = r.chance(1, 5) ? 0 : 1 + r.below(400);
+		// merge function families: results longer than, as long as and shorter than the operands take different paths
+		s.mfunc = r.chance(1, 2) ? MF_UNION : 1 + (int)r.below(MF_N - 1);
+		res.probes[std::string("sorter-merge-func-") + "umlxs"[s.mfunc]]++;
 		uint64_t f = r.below(10);
 		s.finish = f < 4 ? 0 : f < 6 ? 1 : 2;
 		if (r.chance(1, 3)) s.abandon_after = r.below(6);
